@@ -146,6 +146,14 @@ pub fn generate(tier: Tier, rng: &mut Rng) -> Vec<Case> {
             push(src, "limit-literals");
         }
     }
+    // prefix operators and brackets nested 10 to 40 deep on one path: compilation time and stack
+    // stay proportional to the depth
+    for d in [10usize, 20, 30, 40] {
+        for (open, close, leaf) in [("-(", ")", "x"), ("!(", ")", "b"), ("-(-(", "))", "1"), ("(", ")", "x"), ("[", "]", "1"), ("f(", ")", "x"), ("x.f(", ")", "1"), ("{1: ", "}", "2"), ("-", "", "x"), ("!", "", "b"), ("has(a.b) && (", ")", "c"), ("[1].map(v, ", ")", "v")] {
+            push(format!("{}{leaf}{}", open.repeat(d), close.repeat(d)), "deep-nesting");
+            push(format!("{}{leaf}{}", open.repeat(d), close.repeat(d.saturating_sub(1))), "deep-nesting");
+        }
+    }
     // white-space-only and comment-only sources of several lines
     for src in ["\n", "\n\n", " \n", "\t\n  \n", "\r\n", " \n \n ", "\n// c", "// c\n", "// c\n\n", "\u{c}\n"] {
         push(src.to_string(), "blank-lines");
@@ -220,6 +228,36 @@ pub fn generate(tier: Tier, rng: &mut Rng) -> Vec<Case> {
             _ => {
                 let v = valid(rng);
                 push(mutate(rng, &v), "mutation");
+            }
+        }
+    }
+    // the outcome of a compilation depends on its own text only: texts that differ in white space
+    // (also inside literals and after `//`), letter case or a trailing comment, each compiled
+    // immediately after its sibling on the same thread
+    {
+        let bases = [
+            "request.size < 10 // limit", "name == 'John Smith'", "a + b", "'a  b'", "\"x\ty\"", "1 +2", "x.all(e, e > 0)", "[1, 2, 3]", "{'k': 1}", "f(a, b)", "a ? b : c", "x in [1, 2]", "1 + // c\n2", "a &&\nb", "r'a b'",
+            "'''a\nb'''", "b'a b'", "1 2", "a b", "x ==\n// note\n1", "size( x )", "-  1", "! true", "a . b", "a [ 0 ]", "1.5 + .5", "0x1F + 1", "'A' + 'a'", "true && TRUE", "null == NULL", "x.Map(e, e)",
+        ];
+        let mut pairs: Vec<(String, String)> = vec![];
+        for b in bases {
+            let vs = [
+                b.replace(' ', "\n"), b.replace(' ', "  "), b.replace('\n', " "), b.trim().to_string(), format!("{b} "), format!(" {b}"), b.to_uppercase(), b.to_lowercase(),
+                b.split("//").next().unwrap_or("").to_string(), b.replace(' ', "\t"), b.replace(' ', ""), b.replace("//", "//\n"), format!("{b}\n"), format!("({b})"),
+            ];
+            for v in vs {
+                if v != b {
+                    pairs.push((b.to_string(), v));
+                }
+            }
+        }
+        for (a, b) in pairs {
+            for (first, second) in [(&a, &b), (&b, &a)] {
+                let mut c = Case::new("c01", hex(second.as_bytes()));
+                c.src = Some(second.clone());
+                c.prelude = vec![first.clone()];
+                c.tags = vec!["after-sibling", "multi"];
+                out.push(c);
             }
         }
     }
